@@ -73,6 +73,10 @@ func guarded(budget int64, f func()) (ticks int64, exceeded, panicked bool, msg 
 	return
 }
 
+// nonTerminating counts scalars on which the reduction exceeded its budget; after a few dozen the verdict is clear
+// and the remaining phases (which would spend their whole budgets the same way) are skipped.
+var nonTerminating int
+
 func shortVector(r *mon.Run, k *big.Int) {
 	c := Case{Kind: "k", K: fmt.Sprintf("%x", k)}
 	r.Journal("c16 k=%x", k)
@@ -83,6 +87,7 @@ func shortVector(r *mon.Run, k *big.Int) {
 	r.Max("FindShortVector/loop-ticks", ticks)
 	switch {
 	case exceeded:
+		nonTerminating++
 		r.Violate("lattice/FindShortVector/non-termination", fmt.Sprintf("k=%x: more than %d loop iterations (observed maximum on correct code ~1.1k)", k, svBudget), c)
 		return
 	case panicked:
@@ -434,6 +439,11 @@ func main() {
 	r.Observe("k_values", len(ks))
 	for _, k := range ks {
 		shortVector(r, k)
+		if nonTerminating >= 40 {
+			r.Observe("aborted", "40 scalars exceeded the loop budget of FindShortVector; remaining scalars and phases skipped")
+			r.Finish()
+			return
+		}
 	}
 	for i := 0; i < r.Pick(150, 3000); i++ {
 		triple(r, Case{Kind: "triple", Stream: fmt.Sprintf("c16/triple/%d", i)}, ks)
